@@ -20,8 +20,10 @@ META = {
 
 SITE = 'debian_support:BaseVersion'
 # oracle: Debian Policy 5.6.12 as quoted by the property
-REF_WITH_EPOCH = r'[0-9]+:[A-Za-z0-9.+:~-]+'
-REF_NO_EPOCH = r'[A-Za-z0-9.+~-]+'
+#   [epoch:]upstream[-revision]; epoch = digits; upstream over alphanumerics . + ~ (a colon only together with an epoch, a hyphen
+#   only together with a revision); the revision is what follows the last hyphen: non-empty, over alphanumerics + . ~
+REF_WITH_EPOCH = r'[0-9]+:(?:[A-Za-z0-9.+:~]+|[A-Za-z0-9.+:~-]+-[A-Za-z0-9+.~]+)'
+REF_NO_EPOCH = r'(?:[A-Za-z0-9.+~]+|[A-Za-z0-9.+~-]+-[A-Za-z0-9+.~]+)'
 
 
 def find_match_site(src, f):
@@ -192,24 +194,34 @@ def accepted_language(src, f, rep):
             accepted = ok
             chosen_ok = Rm.minus(Gm)
         else:
+            # restrict the marked language to the parses backtracking can choose: a leading greedy optional group participates
+            # whenever some parse has it; a group ending in a lazy / greedy one-character repeat closes as early / late as possible
+            Rc = Rm
             prio = first_optional_groups(pattern, flags, set(groups))
-            if not prio:
+            for g0 in prio:
+                part = rx.has_group(alpha, markers, g0)
+                with_g = rx.erase_markers(Rc.intersect(part))
+                Rc = Rc.minus(part.complement().intersect(rx.lift(with_g, markers)))
+            tails = []
+            for g in groups:
+                k = rx.tail_kind(pattern, flags, g)
+                if k is not None:
+                    tails.append(g)
+                    Rc = rx.prune_tail(Rc, g, k)
+            if not prio and not tails:
                 raise AnalysisError('%s: the guard outcome depends on which parse backtracking chooses (e.g. %r) and no '
                                     'priority-determined group is available' % (f.site, amb.witness()))
-            g0 = prio[0]
-            part = rx.has_group(alpha, markers, g0)
-            P = rx.erase_markers(Rm.intersect(part))
-            with_ok = rx.erase_markers(Rm.intersect(part).minus(Gm))
-            with_rej = rx.erase_markers(Rm.intersect(part).intersect(Gm))
-            wo_ok = rx.erase_markers(Rm.minus(part).minus(Gm)).minus(P)
-            wo_rej = rx.erase_markers(Rm.minus(part).intersect(Gm)).minus(P)
-            a1, a2 = with_ok.intersect(with_rej).witness(), wo_ok.intersect(wo_rej).witness()
-            if a1 is not None or a2 is not None:
-                raise AnalysisError('%s: guard outcome is parse dependent even after fixing the participation of %s '
-                                    '(%r)' % (f.site, g0, a1 if a1 is not None else a2))
-            accepted = with_ok.union(wo_ok)
-            # parses that can be the chosen one for an accepted string
-            chosen_ok = Rm.intersect(part).minus(Gm).union(Rm.minus(part).minus(Gm).intersect(rx.lift(P.complement(), markers)))
+            ok2 = rx.erase_markers(Rc.minus(Gm))
+            rej2 = rx.erase_markers(Rc.intersect(Gm))
+            a1 = ok2.intersect(rej2).witness()
+            if a1 is not None:
+                raise AnalysisError('%s: guard outcome is parse dependent even among the parses backtracking can choose (priority of %s, tails of %s): %r'
+                                    % (f.site, prio, tails, a1))
+            lost = L.minus(rx.erase_markers(Rc)).witness()
+            if lost is not None:
+                raise AnalysisError('%s: internal: the priority pruning lost every parse of %r' % (f.site, lost))
+            accepted = ok2
+            chosen_ok = Rc.minus(Gm)
     return dict(regex=r, mode=mode, mvar=mvar, subject=subject, groups=groups, markers=markers, Rm=Rm, L=L,
                 accepted=accepted, chosen_ok=chosen_ok, guards=guards, rest=rest, alpha=alpha)
 
@@ -365,7 +377,8 @@ def r2_lossless(rep, src, A):
     back = None
     for dec, (_, term), it in res:
         langs = {}
-        present = {a for a in attr_group if dec.get(('present', 'self.' + a), True)}
+        written = set(strlang.slots_of(term))
+        present = {a for a in attr_group if dec.get(('present', 'self.' + a), True) and any(p_ == 'self.' + a or p_ == 'int(self.%s)' % a for p_ in written)}
         has_epoch = any('epoch' in str(attr_group[a]) for a in present)
         has_rev = any('revision' in str(attr_group[a]) for a in present)
         for a, g in attr_group.items():
@@ -471,6 +484,51 @@ def r3_check_then_commit(rep, src, A):
         rep.ok('C14.R3', f2.site, 'rollback restores saved value', '%d interpreted assignments: refused → ValueError and unchanged object, accepted → str(value) stored, recomposed once' % n_cases)
     else:
         rep.fail('C14.R3', f2.site, 'rollback restores saved value', 'component assignment is not rolled back on failure: ' + why, where=f2.where)
+    # component assignments with the real recomposition and validation (nothing stubbed; attribute stores go through the class's
+    # own __setattr__): every kind of value -- None, empty, valid, with the characters that separate components, with a foreign
+    # character -- assigned to every component of objects with and without epoch / revision ends either in a valid version whose
+    # components are the parse of its string, or in ValueError with the object exactly as it was
+    ref = rx.regex_lang('(?:%s|%s)' % (REF_WITH_EPOCH, REF_NO_EPOCH), 0, 'fullmatch', alpha=A['alpha'])
+    starts = [('1', '2.0', '3', '1:2.0-3'), (None, '2.0', '3', '2.0-3'), ('1', '2.0', None, '1:2.0'), (None, '2.0', None, '2.0'), (None, '2-0', '3', '2-0-3')]
+    values = [None, '', '7', 'a.b+c~d', '-', '7-', '2:3', ':', ' ', '7 ', 0]
+    bad2 = None
+    n2 = 0
+    for ep, up, rev, full in starts:
+        for attr, private in comps.items():
+            for val in values:
+                heap = H.Heap(mod)
+                heap.native_regex = True
+                heap.intercept_setattr = True
+                me = heap.alloc('BaseVersion', {'_BaseVersion__epoch': ep, '_BaseVersion__upstream_version': up, '_BaseVersion__debian_revision': rev,
+                                                '_BaseVersion__full_version': full}, name='@version')
+                before = dict(heap.objs[me.name])
+                n2 += 1
+                try:
+                    H.Interp(heap).call(H.Closure(f2.node, {}, me, f2.cls), [attr, val])
+                    out = 'ok'
+                except H.Raised as x:
+                    out = x.exc
+                after = dict(heap.objs[me.name])
+                what = 'Version(%r).%s = %r' % (full, attr, val)
+                if out == 'ok':
+                    fv = after.get('_BaseVersion__full_version')
+                    e2, u2, r2 = after.get('_BaseVersion__epoch'), after.get('_BaseVersion__upstream_version'), after.get('_BaseVersion__debian_revision')
+                    recomposed = ('%s:' % e2 if e2 is not None else '') + (u2 if isinstance(u2, str) else repr(u2)) + ('-%s' % r2 if r2 is not None else '')
+                    if not isinstance(fv, str) or not ref.accepts(fv):
+                        bad2 = bad2 or '%s is accepted and gives the invalid version %r (epoch %r, upstream %r, revision %r)' % (what, fv, e2, u2, r2)
+                    elif fv != recomposed:
+                        bad2 = bad2 or '%s gives the string %r but the components epoch %r, upstream %r, revision %r' % (what, fv, e2, u2, r2)
+                elif out == 'ValueError':
+                    if after != before:
+                        diff = sorted(k for k in after if after.get(k) != before.get(k))
+                        bad2 = bad2 or '%s raises ValueError but leaves %s = %r (it was %r)' % (what, diff[0], after.get(diff[0]), before.get(diff[0]))
+                else:
+                    bad2 = bad2 or '%s raises %s, not ValueError%s' % (what, out, '' if after == before else ', and leaves the object changed (%s)' % ', '.join(
+                        '%s = %r' % (k[len('_BaseVersion__'):], after.get(k)) for k in sorted(after) if after.get(k) != before.get(k)))
+    if bad2 is None:
+        rep.ok('C14.R3', f2.site, 'every component assignment ends in a valid version or in ValueError with the object unchanged', '%d interpreted assignments' % n2)
+    else:
+        rep.fail('C14.R3', f2.site, 'every component assignment ends in a valid version or in ValueError with the object unchanged', bad2, where=f2.where)
     # the full_version route goes through _set_full_version (validated) and nothing else stores it
     routed = any(isinstance(c, ast.Call) and norm(c.func) == 'self._set_full_version' for c in ast.walk(normalize.inline_helpers(f2, depth=2, skip=('_set_full_version',))[0]))
     if routed:
